@@ -39,13 +39,15 @@ def setup_worker(k):
 
 def run_seed(k, wt, hd, td, d):
     sid = os.path.basename(d.rstrip("/"))
-    prop = sid[:3]
-    patch = os.path.abspath(os.path.join(d, "patch.diff"))
-    rc, out = sh(["git", "-C", wt, "apply", patch])
-    if rc != 0:
-        rc, out = sh(["git", "-C", wt, "apply", "--3way", patch])
+    clean = sid.startswith("CLEAN-")          # pseudo seed `CLEAN-Cxx`: the property's check against the UNCHANGED HEAD, in the scratch worktree
+    prop = sid[6:9] if clean else sid[:3]
+    if not clean:
+        patch = os.path.abspath(os.path.join(d, "patch.diff"))
+        rc, out = sh(["git", "-C", wt, "apply", patch])
         if rc != 0:
-            return sid, "PATCH DOES NOT APPLY", ""
+            rc, out = sh(["git", "-C", wt, "apply", "--3way", patch])
+            if rc != 0:
+                return sid, "PATCH DOES NOT APPLY", ""
     try:
         rc, out = sh(["cargo", "build", "--release", "--offline", "--quiet"], cwd=hd, env={"CARGO_NET_OFFLINE": "true"}, timeout=3000)
         if rc != 0:
@@ -55,6 +57,9 @@ def run_seed(k, wt, hd, td, d):
         rc, out = sh([os.path.join(VERIF, "check"), prop], cwd=VERIF, env=env, timeout=7200)
         vio = [l for l in out.splitlines() if l.startswith("VIOLATION")]
         hard = [l for l in vio if "no-failing-input-found" not in l]
+        if clean:
+            summ = [l for l in out.splitlines() if l.startswith(prop + " ")]
+            return sid, ("ALARM ON THE UNCHANGED TREE " + " | ".join(vio)) if vio else "clean", (summ[-1] if summ else out[-200:])
         if hard:
             return sid, "CAUGHT", re.sub(r".*replay=\S*/", "", hard[0])
         if vio:
@@ -73,7 +78,7 @@ def main():
     if "-j" in args:
         i = args.index("-j"); n = int(args[i + 1]); del args[i:i + 2]
     seeds = args or sorted(glob.glob(os.path.join(VERIF, "seeded", "C*")))
-    seeds = [s for s in seeds if os.path.isfile(os.path.join(s, "patch.diff"))]
+    seeds = [s for s in seeds if os.path.isfile(os.path.join(s, "patch.diff")) or os.path.basename(s.rstrip("/")).startswith("CLEAN-")]
     os.makedirs(ROOT, exist_ok=True)
     # the Lean side is built once, up front (the checks only find it up to date afterwards)
     sh(["lake", "build"], cwd=os.path.join(VERIF, "lean", "VueJsx"))
@@ -114,7 +119,7 @@ def main():
                 f.write("%s: %s %s\n" % (sid, results[sid][0], results[sid][1]))
             f.write("# tools/par_seeds.py on /repo HEAD %s, /verif %s (+ working tree): each seeded change applied in a scratch worktree, the harness "
                     "built against it, the quick check of its property run against that binary\n" % (head, vhead))
-    bad = [s for s, v in results.items() if v[0] != "CAUGHT"]
+    bad = [s for s, v in results.items() if v[0] not in ("CAUGHT", "clean")]
     print("%d seeds, %d CAUGHT, not caught: %s" % (len(results), len(results) - len(bad), sorted(bad)))
     return 0
 
